@@ -292,6 +292,11 @@ def main():
         "log": log,
         "exhaustive": False,
     }
+    # runs in which an observed execution of the implementation was replayed in the model (C10: forced schedules,
+    # C11: hook-event traces of instance chains)
+    tv = sum(g["compared_with_model"] for g in groups if g["group"] in ("c10.scn", "c11.chain"))
+    if tv:
+        cov["traces_validated_against_impl"] = tv
     ev = {
         "property_id": pid, "tier": tier, "seed": seed, "level": "proof", "coverage": cov,
         "assumptions": meta.get("assumptions", []),
